@@ -350,6 +350,62 @@ impl Chain {
 
     /// Appends a block built from `spec` to the current branch and returns its id.
     pub fn add_block(&mut self, world: &World, spec: &BlockSpec) -> usize {
+        self.add_block_inner(world, spec, &[])
+    }
+
+    /// Transactions of blocks that a reorganisation removed from the current branch and that could be mined again
+    /// on it at `height`: not on the branch (by txid), relevant to the wallet, every note they spend still on the
+    /// branch and unspent there, and no Ironwood action if NU6.3 is not active at `height`. (block id, index in block)
+    pub fn remine_candidates(&self, world: &World, height: u32) -> Vec<(usize, usize)> {
+        let on_branch_txids: BTreeSet<[u8; 32]> = self.branch.iter().flat_map(|b| self.blocks[*b].txs.iter().map(|t| t.txid)).collect();
+        let mut seen: BTreeSet<[u8; 32]> = BTreeSet::new();
+        let mut out = vec![];
+        // latest copies first, so that a transaction that was already re-mined once is taken from its latest copy
+        for b in self.blocks.iter().rev() {
+            if self.on_branch(b.id) {
+                continue;
+            }
+            for (i, t) in b.txs.iter().enumerate() {
+                if on_branch_txids.contains(&t.txid) || !seen.insert(t.txid) {
+                    continue;
+                }
+                let relevant = t.recv.iter().any(|n| matches!(self.notes[*n].who, Who::Wallet(_)))
+                    || t.spends.iter().any(|s| s.note.is_some_and(|n| matches!(self.notes[n].who, Who::Wallet(_))));
+                let spendable = t.spends.iter().all(|s| match s.note {
+                    None => true,
+                    Some(n) => {
+                        let note = &self.notes[n];
+                        note.height < height && self.on_branch(note.block_id) && !self.spent_on_branch.contains_key(&n)
+                    }
+                });
+                let iw_ok = world.ironwood_active(height) || b.cb.vtx[i].ironwood_actions.is_empty();
+                if relevant && spendable && iw_ok {
+                    out.push((b.id, i));
+                }
+            }
+        }
+        out.reverse();
+        out
+    }
+
+    /// Some block of the current branch above `height` holds a transaction that also exists in a block off the branch
+    /// (a re-mined transaction).
+    pub fn has_remined_above(&self, height: u32) -> bool {
+        let off: BTreeSet<[u8; 32]> = self.blocks.iter().filter(|b| !self.on_branch(b.id)).flat_map(|b| b.txs.iter().map(|t| t.txid)).collect();
+        !off.is_empty() && self.branch.iter().any(|b| self.blocks[*b].height > height && self.blocks[*b].txs.iter().any(|t| off.contains(&t.txid)))
+    }
+
+    /// Appends a block that mines again, byte for byte (same txid, outputs, actions and nullifiers), up to
+    /// `sels.len()` transactions that a reorganisation had removed from the chain. `None` (and no block) if no such
+    /// transaction exists.
+    pub fn add_remine_block(&mut self, world: &World, sels: &[u32]) -> Option<usize> {
+        if sels.is_empty() || self.remine_candidates(world, self.tip_height() + 1).is_empty() {
+            return None;
+        }
+        Some(self.add_block_inner(world, &BlockSpec::default(), sels))
+    }
+
+    fn add_block_inner(&mut self, world: &World, spec: &BlockSpec, remine: &[u32]) -> usize {
         let height = self.tip_height() + 1;
         let prev_hash = if height - 1 == self.base_height { [0u8; 32] } else { self.block_at(height - 1).unwrap().hash };
         let prior_state = self.state_at(height - 1).clone();
@@ -364,6 +420,7 @@ impl Chain {
         let mut new_notes: Vec<NoteRec> = vec![];
         let mut candidates = self.spend_candidates(height);
         let mut newly_spent: Vec<usize> = vec![];
+        let mut remine_from = if remine.is_empty() { vec![] } else { self.remine_candidates(world, height) };
         let rng = &mut self.rng;
 
         for (ti, txspec) in spec.txs.iter().enumerate() {
@@ -527,6 +584,55 @@ impl Chain {
             flush_spend(Pool::Orchard, &mut ctx, &mut rec, &mut pending_spend, rng, world);
             flush_spend(Pool::Ironwood, &mut ctx, &mut rec, &mut pending_spend, rng, world);
 
+            sizes[0] += ctx.outputs.len() as u32;
+            sizes[1] += ctx.actions.len() as u32;
+            sizes[2] += ctx.ironwood_actions.len() as u32;
+            vtx.push(ctx);
+            txs.push(rec);
+        }
+
+        // transactions mined again after a reorganisation: the same bytes at a new place in the chain
+        for sel in remine {
+            if remine_from.is_empty() {
+                break;
+            }
+            let (obid, oti) = remine_from.remove(vcore::pick_index(*sel, remine_from.len()));
+            let old = self.blocks[obid].txs[oti].clone();
+            // two re-mined transactions must not spend the same note
+            if old.spends.iter().any(|s| s.note.is_some_and(|n| newly_spent.contains(&n))) {
+                continue;
+            }
+            let ti = vtx.len();
+            let mut ctx = self.blocks[obid].cb.vtx[oti].clone();
+            ctx.index = ti as u64;
+            let tx_start = sizes;
+            let mut rec = TxRec { txid: old.txid, index: ti as u16, recv: vec![], spends: old.spends.clone() };
+            for s in &old.spends {
+                if let Some(n) = s.note {
+                    candidates.retain(|c| *c != n);
+                    newly_spent.push(n);
+                }
+            }
+            for on in &old.recv {
+                let o = self.notes[*on].clone();
+                let position = tx_start[o.pool as usize] as u64 + o.out_index as u64;
+                let nf = match (o.pool, o.who) {
+                    // a Sapling nullifier depends on the note's position in the tree
+                    (Pool::Sapling, who) => {
+                        let keys = world.keys(who);
+                        let scope = if matches!(o.scope, ScopeSel::Internal) { Scope::Internal } else { Scope::External };
+                        let cod = sapling::note_encryption::CompactOutputDescription::try_from(&ctx.outputs[o.out_index as usize]).expect("own output");
+                        let ivk = sapling::keys::PreparedIncomingViewingKey::new(&keys.sapling.to_ivk(scope));
+                        let zip212 = zcash_primitives::transaction::components::sapling::zip212_enforcement(&world.net, bh);
+                        let (note, _) = sapling::note_encryption::try_sapling_compact_note_decryption(&ivk, &cod, zip212).expect("note decrypts under its own key");
+                        note.nf(&keys.sapling.to_nk(scope), position).0
+                    }
+                    _ => o.nf,
+                };
+                let nid = self.notes.len() + new_notes.len();
+                rec.recv.push(nid);
+                new_notes.push(NoteRec { id: nid, nf, position, height, block_id: id, tx_index: ti as u16, ..o });
+            }
             sizes[0] += ctx.outputs.len() as u32;
             sizes[1] += ctx.actions.len() as u32;
             sizes[2] += ctx.ironwood_actions.len() as u32;
